@@ -241,6 +241,8 @@ val dec_N : n -> bytes
 
 val parse_dec_N : bytes -> n option
 
+val parse_dec_Z : bytes -> z option
+
 val dec_pad : nat -> n -> bytes
 
 val hexdigit : n -> n
@@ -718,6 +720,9 @@ val fd_MetadataAuthority :
 val origin_swhid_str :
   (cls -> fields -> bytes result) -> (swhid_kind -> text -> bytes -> text) ->
   pyval -> pyval result
+
+val decode_swhid_if_truthy :
+  (swhid_kind -> text -> (text * bytes) result) -> text -> unit m
 
 val rem_tail :
   (cls -> fields -> bytes result) -> (swhid_kind -> text -> (text * bytes)
